@@ -267,6 +267,16 @@ def multisOK (n : Nat) : List (List Nat) → List (List Nat) → Bool
       m.length == v.length && m.sum == n && (v.zip m).all (fun vm => vm.1 != 0 || vm.2 == 0) &&
         multisOK n vs ms'
 
+/-- all hypotheses of the property theorems for one call, as one decidable condition; for
+`withRepl` it contains the guard "every vector on the axis has a positive total" -/
+def pre (t : View) (lay : Lay) (n : Nat) (mode : Mode) (rng : Rng) : Bool :=
+  viewWF t && decide (1 ≤ n) &&
+    (match mode with
+     | .without => layOK t lay && choicesOK n (lay.map (·.2)) rng.choices
+     | .withRepl => layOK t lay && multisOK n (lay.map (·.2)) rng.multis &&
+         lay.all (fun l => decide (0 < l.2.sum))
+     | .byId => rng.shuffled.isPerm t.ids)
+
 /-! ### the property, on observations only -/
 
 /-- entrywise comparison by ID of a result with the input on the result's IDs -/
@@ -277,7 +287,7 @@ def cellsRel (rel : Nat → Nat → Bool) (t r : View) : Bool :=
     | _, _ => false
 
 def clauses (t : View) (n : Nat) (mode : Mode) (o : Obs) : List (String × Bool) :=
-  ("input-unchanged", o.after == t) ::
+  ("input-unchanged", decide (o.after = t)) ::
   match o.result with
   | .error _ => [("returns-a-table", false)]
   | .ok r =>
@@ -394,11 +404,7 @@ def handleTable (req : Json) : R Json := do
   let after ← asView (← fld obsJ "after")
   let resJ ← fld obsJ "result"
   let mobs := run t lay n mode rng
-  let pre := viewWF t && decide (1 ≤ n) &&
-    (match mode with
-     | .without => layOK t lay && choicesOK n (lay.map (·.2)) rng.choices
-     | .withRepl => layOK t lay && multisOK n (lay.map (·.2)) rng.multis
-     | .byId => true)
+  let pre := pre t lay n mode rng
   let modelJ := resultToJson mobs.result
   let mh := holds t n mode mobs
   -- the implementation's observation
